@@ -11,6 +11,7 @@ from gapic.schema import api as api_mod
 from gapic.schema import wrappers
 
 try:
+    from crosshair.core import deep_realize
     from crosshair.tracers import NoTracing, is_tracing
 except Exception:  # pragma: no cover
     NoTracing = None
@@ -105,6 +106,14 @@ def run(n, s0, s1, s2, nf0, nf1, nf2, a0, b0, a1, b1, a2, b2, cs, ss, f1_exists,
     return raised == err
 
 
+def conc(x, lo, hi):
+    """concretise a symbolic selector by comparisons (one fork per value, under tracing)"""
+    for v in range(lo, hi + 1):
+        if x == v:
+            return v
+    raise AssertionError("selector out of range")
+
+
 def in_part1(s0):
     return PART < 0 or s0 == PART
 
@@ -129,11 +138,19 @@ def validate_multi(n: int, s0: int, s1: int, s2: int, p0: int, p1: int, p2: int,
     pre: 1 <= n <= NMAX and in_part1(s0)
     pre: 0 <= s0 <= 3 and 0 <= s1 <= 3 and 0 <= s2 <= 3
     pre: 0 <= p0 <= 4 and 0 <= p1 <= 4 and 0 <= p2 <= 4
+    pre: n >= 2 or (s1 == 0 and p1 == 0)
+    pre: n >= 3 or (s2 == 0 and p2 == 0)
     post: _
     """
-    # several entries (duplicates, order, which entry is at fault); f1 is a uuid4 string that may be required
-    (nf0, a0, b0), (nf1, a1, b1), (nf2, a2, b2) = PICKS[p0], PICKS[p1], PICKS[p2]
-    return run(n, s0, s1, s2, nf0, nf1, nf2, a0, b0, a1, b1, a2, b2, cs, False, True, 9, f1_required, 1)
+    # several entries (duplicates, order, which entry is at fault); f1 is a uuid4 string that may be required.
+    # Every input is a selector: realise the model, then run the real validator untraced (CrossHair still
+    # enumerates all models with z3 and confirms only when the decision tree is exhausted).
+    n, s0, s1, s2 = conc(n, 1, 3), conc(s0, 0, 3), conc(s1, 0, 3), conc(s2, 0, 3)
+    p0, p1, p2 = conc(p0, 0, 4), conc(p1, 0, 4), conc(p2, 0, 4)
+    cs, f1_required = bool(cs), bool(f1_required)
+    with untraced():
+        (nf0, a0, b0), (nf1, a1, b1), (nf2, a2, b2) = PICKS[p0], PICKS[p1], PICKS[p2]
+        return run(n, s0, s1, s2, nf0, nf1, nf2, a0, b0, a1, b1, a2, b2, cs, False, True, 9, f1_required, 1)
 
 
 def twin(cs: bool, ss: bool, f1_type: int, f1_fmt: int) -> bool:
